@@ -60,3 +60,35 @@ pub fn body_fee(payload: &[u8]) -> u64 {
         tx3_cardano::pallas::codec::minicbor::decode(payload).unwrap();
     tx.transaction_body.fee
 }
+
+// ---- watchdog: a resolution normally takes milliseconds; if the case counter does not advance for `limit` seconds the
+// resolve loop does not terminate on the current input (property C14: never hang).  The witness is printed and the process
+// exits (the stuck thread cannot be interrupted).
+static CASE_NO: std::sync::atomic::AtomicU64 = std::sync::atomic::AtomicU64::new(0);
+static CASE_DESC: std::sync::Mutex<String> = std::sync::Mutex::new(String::new());
+
+pub fn begin_case(desc: String) {
+    *CASE_DESC.lock().unwrap() = desc;
+    CASE_NO.fetch_add(1, std::sync::atomic::Ordering::SeqCst);
+}
+
+pub fn start_watchdog(limit_secs: u64) {
+    std::thread::spawn(move || {
+        let mut last = CASE_NO.load(std::sync::atomic::Ordering::SeqCst);
+        let mut still = 0u64;
+        loop {
+            std::thread::sleep(std::time::Duration::from_secs(1));
+            let now = CASE_NO.load(std::sync::atomic::Ordering::SeqCst);
+            if now != last { last = now; still = 0; continue; }
+            still += 1;
+            if still >= limit_secs && now > 0 {
+                let desc = CASE_DESC.lock().map(|d| d.clone()).unwrap_or_default();
+                println!("VERIF-WITNESS obligation=c14_pipeline/resolve_tx#termination fn=resolve_tx input={desc} class=no-result observed=no result after {limit_secs} s (a resolution normally takes milliseconds) required=Ok or Err: the resolve loop terminates");
+                println!("VERIF-CASES fn=resolve_tx n={now}");
+                use std::io::Write;
+                let _ = std::io::stdout().flush();
+                std::process::exit(0);
+            }
+        }
+    });
+}
